@@ -303,7 +303,7 @@ def removal_phase(world, ti, ex, cid):
     for n, t, kind, paths in _fs_events(ex):
         if kind in ("rename", "replace", "remove", "unlink") and paths and paths[0] == objrel and removed is None:
             removed = n
-        if t == ti and paths and paths[-1].startswith("refs" + os.sep) and kind not in ("stat", "lstat", "open:r", "os.open:r",
+        if t == ti and paths and paths[-1].startswith("refs" + os.sep) and kind not in ("stat", "stat.strict", "lstat", "open:r", "os.open:r",
                                                                                       "access", "listdir", "scandir", "mkdir"):
             if tag_first is None:
                 tag_first = n
